@@ -619,6 +619,14 @@ def SafeF (H : Nat) (env : Nat → Nat) (cont : Bool) (f : Nat) (prog : List LIt
     (init : RState) : Prop :=
   ∃ s, runF H env cont f prog init = .ok s
 
+/-- The mesh halo is deep enough for every access of the program (otherwise the LFRic
+infrastructure aborts at run time: a stencil or an iteration space reaching beyond the halo is
+outside the property). -/
+def deepEnough (H : Nat) (env : Nat → Nat) (prog : List LItem) : Bool :=
+  prog.all fun x => match x with
+    | .loop k b => k.args.all fun a => decide ((specNeed H env true k b a).depth ≤ H)
+    | _ => true
+
 /-- the metadata of every argument on `f` is consistent with the actual continuity: an argument
 declared on a discontinuous space is only passed a discontinuous field. -/
 def consistentF (cont : Bool) (f : Nat) (prog : List LItem) : Bool :=
